@@ -520,6 +520,11 @@ class Engine:
 		yield st, NORMAL
 
 	def x_Import(self, node, st):
+		# function-local `import m [as n]`: the name denotes the external (or repository) module
+		for a in node.names:
+			if '.' in a.name and not a.asname:
+				continue
+			st.env[a.asname or a.name] = self.repo.resolve(a.name) if a.name.startswith('gambit') else ExtRef(a.name)
 		yield st, NORMAL
 
 	def x_ImportFrom(self, node, st):
